@@ -36,7 +36,7 @@ var (
 
 func genScript(t *rapid.T) []rig.Action {
 	var s []rig.Action
-	for i, n := 0, rapid.IntRange(0, 8).Draw(t, "nact"); i < n; i++ {
+	for i, n := 0, rapid.IntRange(0, rig.Up(8)).Draw(t, "nact"); i < n; i++ {
 		switch k := rapid.IntRange(0, 9).Draw(t, "act"); {
 		case k < 2:
 			s = append(s, rig.Action{Op: "set", K: rapid.SampledFrom(hdrKeys).Draw(t, "k"), V: rapid.SampledFrom([]string{"1", "2", "text/plain"}).Draw(t, "v")})
@@ -59,7 +59,7 @@ func gen(t *rapid.T) Case {
 	if c.Trace {
 		reserved = append(reserved, "TRACE")
 	}
-	for i, n := 0, rapid.IntRange(0, 14).Draw(t, "nhist"); i < n; i++ {
+	for i, n := 0, rapid.IntRange(0, rig.Up(14)).Draw(t, "nhist"); i < n; i++ {
 		op := HOp{Pattern: rapid.SampledFrom(patterns).Draw(t, "hp")}
 		switch k := rapid.IntRange(0, 9).Draw(t, "hk"); {
 		case k < 4:
